@@ -182,3 +182,30 @@ func VerifNamespaceFireConnection(n *Namespace) []uintptr {
 func VerifNamespaceEventStore(n *Namespace) *VerifEventHandlerStore {
 	return &VerifEventHandlerStore{s: n.eventHandlers}
 }
+
+// VerifHeld keeps the very slice a registry handed out for one occurrence, so
+// that the harness can check later that it is still what was returned.
+type VerifHeld struct{ get func() []uintptr }
+
+func (h *VerifHeld) Ptrs() []uintptr { return h.get() }
+
+func (v *VerifEventHandlerStore) FireHold(event string) *VerifHeld {
+	hs := v.s.getAll(event)
+	return &VerifHeld{get: func() []uintptr {
+		out := make([]uintptr, len(hs))
+		for i, h := range hs {
+			out[i] = h.rv.Pointer()
+		}
+		return out
+	}}
+}
+
+func (v *VerifHandlerStore) FireHold() *VerifHeld {
+	hs := v.s.getAll()
+	return &VerifHeld{get: func() []uintptr { return codePtrs(hs) }}
+}
+
+func VerifNamespaceFireConnectionHold(n *Namespace) *VerifHeld {
+	hs := n.connectionHandlers.getAll()
+	return &VerifHeld{get: func() []uintptr { return codePtrs(hs) }}
+}
